@@ -183,10 +183,30 @@ static bool plant(Plant &p, int cls, Rng &r) {
             // only valid if the probe lands in the last block's top level (not inside an unterminated frame): it does, the host is well formed
             add_scalar(p.doc.blocks[(size_t) b], "_t_probe", MValue::chr(cls == DF_UNCLOSED_TEXT ? U("text line\nmore") : U("abc\ndef"), true)); p.where = "doc_end"; return true;
         }
-        case DF_MISSING_SPACE_LIST: if (!v2) return false;
-            probe(U("_m_probe ['x''y']"), CIF_MISSING_SPACE, [&](DBlock &blk) { MValue l; l.kind = CIF_LIST_KIND; l.elems.push_back(MValue::chr(U("x"), true)); l.elems.push_back(MValue::chr(U("y"), true)); add_scalar(blk, "_m_probe", l); }); return true;
-        case DF_MISSING_SPACE_NAME: if (!v2) return false;
-            probe(U("_m_probe 'x'_m_probe2 2"), CIF_MISSING_SPACE, [&](DBlock &blk) { add_scalar(blk, "_m_probe", MValue::chr(U("x"), true)); add_scalar(blk, "_m_probe2", MValue::numb(U("2"))); }); return true;
+        case DF_MISSING_SPACE_LIST: {
+            if (!v2) return false;
+            // the token the whitespace is missing after: a quoted string, or the closing delimiter of a nested list / table
+            auto two = [](MValue a, MValue b) { MValue l; l.kind = CIF_LIST_KIND; l.elems.push_back(a); l.elems.push_back(b); return l; };
+            auto l12 = [&]() { return two(MValue::numb(U("1")), MValue::numb(U("2"))); };
+            auto tab = [](const char *k, const char *v) { MValue t; t.kind = CIF_TABLE_KIND; t.entries.push_back({U(k), MValue::numb(U(v))}); return t; };
+            switch (r.below(5)) {
+                case 0: probe(U("_m_probe [[1 2][1 2]]"), CIF_MISSING_SPACE, [&](DBlock &blk) { add_scalar(blk, "_m_probe", two(l12(), l12())); }); break;
+                case 1: probe(U("_m_probe [{'a':1}{'b':2}]"), CIF_MISSING_SPACE, [&](DBlock &blk) { add_scalar(blk, "_m_probe", two(tab("a", "1"), tab("b", "2"))); }); break;
+                case 2: probe(U("_m_probe [[1 2]'y']"), CIF_MISSING_SPACE, [&](DBlock &blk) { add_scalar(blk, "_m_probe", two(l12(), MValue::chr(U("y"), true))); }); break;
+                default: probe(U("_m_probe ['x''y']"), CIF_MISSING_SPACE, [&](DBlock &blk) { add_scalar(blk, "_m_probe", two(MValue::chr(U("x"), true), MValue::chr(U("y"), true))); }); break;
+            }
+            return true;
+        }
+        case DF_MISSING_SPACE_NAME: {
+            if (!v2) return false;
+            auto l12 = [&]() { MValue l; l.kind = CIF_LIST_KIND; l.elems.push_back(MValue::numb(U("1"))); l.elems.push_back(MValue::numb(U("2"))); return l; };
+            switch (r.below(4)) {
+                case 0: probe(U("_m_probe [1 2]_m_probe2 2"), CIF_MISSING_SPACE, [&](DBlock &blk) { add_scalar(blk, "_m_probe", l12()); add_scalar(blk, "_m_probe2", MValue::numb(U("2"))); }); break;
+                case 1: probe(U("_m_probe {'k':1}_m_probe2 2"), CIF_MISSING_SPACE, [&](DBlock &blk) { MValue t; t.kind = CIF_TABLE_KIND; t.entries.push_back({U("k"), MValue::numb(U("1"))}); add_scalar(blk, "_m_probe", t); add_scalar(blk, "_m_probe2", MValue::numb(U("2"))); }); break;
+                default: probe(U("_m_probe 'x'_m_probe2 2"), CIF_MISSING_SPACE, [&](DBlock &blk) { add_scalar(blk, "_m_probe", MValue::chr(U("x"), true)); add_scalar(blk, "_m_probe2", MValue::numb(U("2"))); }); break;
+            }
+            return true;
+        }
         case DF_STRAY_DELIM: {
             if (!v2) return false;
             ustr d = r.chance(1, 2) ? U("]") : U("}");
